@@ -140,11 +140,17 @@ class FileResponseMixin:
         }
         if download_name or content_type == "application/octet-stream":
             download_name = download_name or os.path.basename(filepath)
-            content_disposition = (
-                "attachment; "
-                f'filename="{download_name}"; '
-                f"filename*=utf-8''{quote(download_name)}"
-            )
+            quoted_name = quote(download_name)
+            if quoted_name == download_name:
+                content_disposition = (
+                    "attachment; "
+                    f'filename="{download_name}"; '
+                    f"filename*=utf-8''{quoted_name}"
+                )
+            else:
+                # Only the extended form can carry non-ASCII text, quotes or
+                # control characters (RFC 6266); header values are Latin-1.
+                content_disposition = f"attachment; filename*=utf-8''{quoted_name}"
             headers["content-disposition"] = content_disposition
 
         return headers
